@@ -41,6 +41,8 @@ type LoopSpec struct {
 	Dec      *Clause
 	Modifies []*Clause
 	Unroll   bool
+	ModSorts []string // "loop K modifies * in Int": every cell of the sort may change in the loop (havocked at the head)
+	Keeps    []string // ghost variables the loop does not change: kept across the head (not havocked), equality obliged at the back edge
 	UnrollN  int // unroll the loop this many iterations (with an unwinding obligation) instead of using an invariant
 }
 
@@ -54,6 +56,7 @@ type Contract struct {
 	Ensures  []*Clause
 	Modifies []*Clause
 	ModAny   bool // "modifies *" : anything may change (no frame)
+	ModSorts []string // "modifies * in Fp": any cell of the named sorts may change; cells of the other sorts are framed
 	Loops    map[int]*LoopSpec
 	Nilable  map[string]bool
 	Lets     []struct {
@@ -303,6 +306,10 @@ func (cs *ContractSet) ParseFile(path string, pkgPath string) {
 				cur.ModAny = true
 				continue
 			}
+			if strings.HasPrefix(rest, "* in ") {
+				cur.ModSorts = append(cur.ModSorts, strings.Fields(strings.TrimPrefix(rest, "* in "))...)
+				continue
+			}
 			for _, part := range splitTopLevel(rest, ',') {
 				if c := mkClause(part); c != nil {
 					cur.Modifies = append(cur.Modifies, c)
@@ -510,11 +517,17 @@ func (cs *ContractSet) ParseFile(path string, pkgPath string) {
 					ls.Dec = c
 				}
 			case "modifies":
+				if strings.HasPrefix(body, "* in ") {
+					ls.ModSorts = append(ls.ModSorts, strings.Fields(strings.TrimPrefix(body, "* in "))...)
+					continue
+				}
 				for _, part := range splitTopLevel(body, ',') {
 					if c := mkClause(part); c != nil {
 						ls.Modifies = append(ls.Modifies, c)
 					}
 				}
+			case "keeps":
+				ls.Keeps = append(ls.Keeps, strings.Fields(body)...)
 			case "unroll":
 				ls.Unroll = true
 				ls.UnrollN, _ = strconv.Atoi(strings.TrimSpace(body))
